@@ -398,7 +398,7 @@ func verifLemmaReserveKnownHeld(req models.ChfConvergedChargingChargingDataReque
 // @   requires abmf.GhostBalance[uint32(specRg(req))] >= 0 && abmf.GhostBalance[uint32(specRg(req))] < 1<<62 && specUe(req).ReservedQuota[specRg(req)] > -(1<<62) && specUe(req).ReservedQuota[specRg(req)] < 1<<62
 // @   requires chf_context.SpecHasRatingGroup(specUe(req), specRg(req)) && specUe(req).RatingType[specRg(req)] == charging_datatype.REQ_SUBTYPE_RESERVE
 // @   requires specUe(req).ReservedQuota[specRg(req)] <= specPrice(req)
-// @   ensures !abmf.GhostFailed && !rating.GhostFailed ==> abmf.GhostBalance[uint32(specRg(req))]+specUe(req).ReservedQuota[specRg(req)] == old(abmf.GhostBalance[uint32(specRg(req))])+old(specUe(req).ReservedQuota[specRg(req)])-specPrice(req)
+// @   ensures [C99] !abmf.GhostFailed && !rating.GhostFailed ==> abmf.GhostBalance[uint32(specRg(req))]+specUe(req).ReservedQuota[specRg(req)] == old(abmf.GhostBalance[uint32(specRg(req))])+old(specUe(req).ReservedQuota[specRg(req)])-specPrice(req)
 // @   ensures [C06] !abmf.GhostFailed && !rating.GhostFailed ==> abmf.GhostBalance[uint32(specRg(req))] >= 0
 // @   ensures [C06] !abmf.GhostFailed && !rating.GhostFailed && len(result0) == 1 && result0[0].GrantedUnit != nil ==> uint32(result0[0].GrantedUnit.TotalVolume) <= specAllowedUnits(specAvail(req, specUe(req).ReservedQuota[specRg(req)]), rating.GhostUnitCost[uint32(specRg(req))])
 func verifLemmaReserveKnownNeed(req models.ChfConvergedChargingChargingDataRequest) ([]models.MultipleUnitInformation, bool) {
@@ -446,7 +446,7 @@ func verifLemmaReserveNewHeld(req models.ChfConvergedChargingChargingDataRequest
 // @   requires abmf.GhostBalance[uint32(specRg(req))] >= 0 && abmf.GhostBalance[uint32(specRg(req))] < 1<<62 && specUe(req).ReservedQuota[specRg(req)] > -(1<<62) && specUe(req).ReservedQuota[specRg(req)] < 1<<62
 // @   requires !chf_context.SpecHasRatingGroup(specUe(req), specRg(req))
 // @   requires specUe(req).ReservedQuota[specRg(req)] <= specPrice(req)
-// @   ensures !abmf.GhostFailed && !rating.GhostFailed ==> abmf.GhostBalance[uint32(specRg(req))]+specUe(req).ReservedQuota[specRg(req)] == old(abmf.GhostBalance[uint32(specRg(req))])+old(specUe(req).ReservedQuota[specRg(req)])-specPrice(req)
+// @   ensures [C99] !abmf.GhostFailed && !rating.GhostFailed ==> abmf.GhostBalance[uint32(specRg(req))]+specUe(req).ReservedQuota[specRg(req)] == old(abmf.GhostBalance[uint32(specRg(req))])+old(specUe(req).ReservedQuota[specRg(req)])-specPrice(req)
 // @   ensures [C06] !abmf.GhostFailed && !rating.GhostFailed ==> abmf.GhostBalance[uint32(specRg(req))] >= 0
 // @   ensures [C06] !abmf.GhostFailed && !rating.GhostFailed && len(result0) == 1 && result0[0].GrantedUnit != nil ==> uint32(result0[0].GrantedUnit.TotalVolume) <= specAllowedUnits(specAvail(req, specUe(req).ReservedQuota[specRg(req)]), rating.GhostUnitCost[uint32(specRg(req))])
 func verifLemmaReserveNewNeed(req models.ChfConvergedChargingChargingDataRequest) ([]models.MultipleUnitInformation, bool) {
